@@ -77,6 +77,16 @@ theorem c18_heal_glue_agrees_with_evaluated_source :
     (∀ raw : List Char, (shownPrefix (String.ofList raw)).length = min 200 raw.length) :=
   ⟨by decide +kernel, by decide +kernel, by decide +kernel, shownPrefix_length⟩
 
+/-- "Feeds each retry the previous attempt's error": on the code under test the error context shown to retry
+    `i` (1 … 4, on a fresh loop and on the second call of a used one) carried the validator trace and the raw
+    output of attempt `i − 1` and of no other attempt — and the model shows retry `i` exactly the context built
+    from attempt `i − 1` (and attempt 0 none). -/
+theorem c18_error_feed_agrees_with_evaluated_source :
+    (∀ e ∈ Gen.feedTable, e.2 = some ([e.1 - 1], [e.1 - 1]) ∧
+      ctxShownTo e.1 = some (some (mkCtx (some (nthText 't' (e.1 - 1))) (nthText 'r' (e.1 - 1))))) ∧
+    Gen.feedTable.map (·.1) = [1, 2, 3, 4] ∧ ctxShownTo 0 = some none := by
+  decide +kernel
+
 end Evaluated
 
 end Operon.Loops
